@@ -68,6 +68,11 @@ Section Base.
   Variables hrp_min hrp_max : N.          (* 33, 126 *)
   Variable sep : N.                       (* the subclass' SEPARATOR *)
   Variable cklen : nat.                   (* the subclass' CHECKSUM_STR_LEN *)
+  (* two switches read off the source by harness/gen_bech32.py: is there an [if not bech_str.isascii()] guard,
+     and the minimum number of data symbols besides the checksum (the literal 1, or the min_data_len
+     parameter / argument where the code has one) *)
+  Variable ascii_only : bool.
+  Variable min_data : nat.
   (* cls._ComputeChecksum / cls._VerifyChecksum (SegWit's index data[0]) *)
   Variable compute_checksum : list N -> list N -> res (list N).
   Variable verify_checksum : list N -> list N -> res bool.
@@ -93,6 +98,7 @@ Section Base.
 
   (* _DecodeBech32 *)
   Definition decode_base (bech_str : list N) : res (list N * list N) :=
+    if ascii_only && negb (forallb (fun c => c <? 128) bech_str) then Err ValueError else   (* str.isascii() *)
     if is_string_mixed bech_str then Err ValueError else
     let s := py_lower bech_str in
     match rfind sep s with
@@ -102,7 +108,7 @@ Section Base.
       if (length hrp =? 0)%nat || existsb (fun x => (x <? hrp_min) || (hrp_max <? x)) hrp
       then Err ValueError else
       let data_part := skipn (S sep_pos) s in
-      if (length data_part <? cklen + 1)%nat || negb (forallb (fun x => memb x charset) data_part)
+      if (length data_part <? cklen + min_data)%nat || negb (forallb (fun x => memb x charset) data_part)
       then Err ValueError else
       let int_data := map charset_find data_part in
       ok <- verify_checksum hrp int_data ;;
@@ -116,10 +122,11 @@ Definition b32_to_base32 := to_base32 b32_to_from_bits b32_to_to_bits.
 Definition b32_from_base32 := from_base32 b32_from_from_bits b32_from_to_bits.
 
 Definition bech32_encode_base := encode_base bech32_charset bech32_sep.
-Definition bech32_decode_base := decode_base bech32_charset bech32_hrp_min_cp bech32_hrp_max_cp.
+Definition bech32_decode_base (sep : N) (cklen min_data : nat) :=
+  decode_base bech32_charset bech32_hrp_min_cp bech32_hrp_max_cp sep cklen bech32_dec_ascii_only min_data.
 
 Definition bech32_decode_raw (s : list N) : res (list N * list N) :=
-  bech32_decode_base bech32_sep bech32_cklen
+  bech32_decode_base bech32_sep bech32_cklen bech32_decoder_min_data
     (fun hrp data => Ok (b32_verify_checksum bech32_const hrp data)) s.
 
 (* Bech32Encoder.Encode(hrp, data) *)
@@ -151,7 +158,7 @@ Definition segwit_encode (hrp : list N) (wit_ver : N) (wit_prog : list N) : res 
   encode_base bech32_charset segwit_sep segwit_compute hrp (wit_ver :: syms).
 
 Definition segwit_decode_raw (s : list N) : res (list N * list N) :=
-  bech32_decode_base segwit_sep segwit_cklen segwit_verify s.
+  bech32_decode_base segwit_sep segwit_cklen segwit_decoder_min_data segwit_verify s.
 
 (* SegwitBech32Decoder.Decode(hrp, addr) *)
 Definition segwit_decode (hrp addr : list N) : res (N * list N) :=
@@ -174,7 +181,7 @@ Definition cash_encode (hrp net_ver data : list N) : res (list N) :=
   encode_base bech32_charset cash_sep (fun h d => Ok (cash_compute_checksum h d)) hrp syms.
 
 Definition cash_decode_raw (s : list N) : res (list N * list N) :=
-  bech32_decode_base cash_sep cash_cklen (fun h d => Ok (cash_verify_checksum h d)) s.
+  bech32_decode_base cash_sep cash_cklen cash_decoder_min_data (fun h d => Ok (cash_verify_checksum h d)) s.
 
 (* BchBech32Decoder.Decode(hrp, addr) : (IntegerUtils.ToBytes(conv_data[0]), bytes(conv_data[1:])) *)
 Definition cash_decode (hrp addr : list N) : res (list N * list N) :=
